@@ -486,6 +486,15 @@ def run_path(I, c, cfg, decisions):
     if outcome[0] == "loop-step":
         pass
     elif outcome[0] == "return":
+        # `using`: lemma instances at the function's exit -- the hypotheses become obligations (lemma-pre), the conclusion of the
+        # (proved-on-this-run) lemma is then available to the ensures clauses
+        using = c.holder.__dict__.get("using")
+        if using is not None:
+            for lem, largs in using(a, old, outcome[1]):
+                if lem.assumed:
+                    raise Untranslatable("an assumed lemma cannot be used at a function exit")
+                ctx.oblige(f"{c.name}:exit:{lem.name}", "lemma-pre", lem.hyps(*largs), {})
+                ctx.assume(lem.stmt(*largs, lem.upto(*largs)), "lemma instance " + lem.name)
         for name, f in c.ensures:
             try:
                 g = _to_goal(f(a, old, outcome[1]))
